@@ -331,6 +331,8 @@ def driver_extra(module, targets):
          "  P(\"could\", could); P(\"ok\", ok);",
          "}"]
     pre = r"""
+template <class VT> static typename std::enable_if<std::is_integral<VT>::value && !std::is_same<VT, bool>::value, bool>::type fits_vt(long long x) { return static_cast<long long>(static_cast<VT>(x)) == x && ((x < 0) == (static_cast<VT>(x) < 0)); }
+template <class VT> static typename std::enable_if<!(std::is_integral<VT>::value && !std::is_same<VT, bool>::value), bool>::type fits_vt(long long) { return true; }
 template <class VT, class X> static typename std::enable_if<std::is_enum<VT>::value, VT>::type conv(X x) { return static_cast<VT>(x); }
 template <class VT, class X> static typename std::enable_if<std::is_same<VT, bool>::value, bool>::type conv(X x) { return x != 0; }
 template <class VT, class X> static typename std::enable_if<!std::is_enum<VT>::value && !std::is_same<VT, bool>::value, X>::type conv(X x) { return x; }
@@ -341,7 +343,9 @@ template <class VT, class X> static typename std::enable_if<!std::is_enum<VT>::v
     for i, (path, desc) in enumerate(targets):
         acc = "v." + ".".join("%s()" % p for p in path)
         if desc["virtual"]:
-            L.append("    case %d: { auto f = %s; long long x = std::stoll(val); bool could = f.CouldWriteValue(x); bool ok = f.TryToWrite(x); P(\"could\", could); P(\"ok\", ok); break; }" % (i, acc))
+            # the write methods of a virtual field take its value type by value: a value that this type cannot
+            # represent would be narrowed by the CALLER, which is not the field's doing - reported as "skip"
+            L.append("    case %d: { auto f = %s; long long x = std::stoll(val); if (!fits_vt<decltype(f.Read())>(x)) { P(\"could\", std::string(\"skip\")); P(\"ok\", std::string(\"skip\")); break; } bool could = f.CouldWriteValue(x); bool ok = f.TryToWrite(x); P(\"could\", could); P(\"ok\", ok); break; }" % (i, acc))
         else:
             L.append("    case %d: { do_write(%s, val); break; }" % (i, acc))
     L.append("    default: break;")
@@ -488,6 +492,9 @@ def compare(case, outputs, stats):
             obs = {"could": "1" if w["could"] else "0", "ok": "1" if w["ok"] else "0", "buf": w["buf"].hex() or "-"}
             if w["ok"]:
                 obs["read"] = RI.fmt_value(None, w["read"]) if w["read"] is not None else None
+            if g.get("could") == "skip":
+                stats.classes["virtual-argument-not-representable-in-parameter-type"] += 1
+                break  # nothing was called; later steps of the sequence start from a different buffer
             bad = None
             for k in ("could", "ok", "buf"):
                 if g.get(k) != obs[k]:
